@@ -361,7 +361,7 @@ func (h *hist) actReport(t *rapid.T) {
 	id := rapid.SampledFrom(live).Draw(t, "dev")
 	k := h.keys[id]
 	var slot uint32
-	if rapid.IntRange(0, 4).Draw(t, "slotKind") == 0 {
+	if rapid.IntRange(0, 4).Draw(t, "slotKind") <= 1 {
 		slot = drawSlot(t, s.now, s.M.Offset, "slot")
 	} else {
 		lo, hi := int64(s.now)-432, int64(s.now)+432
@@ -389,7 +389,10 @@ func (h *hist) actClock(t *rapid.T) {
 	s := h.s
 	o := int64(s.M.Offset)
 	var now int64
-	switch rapid.SampledFrom([]string{"small", "small", "boundary", "week", "back"}).Draw(t, "clockKind") {
+	switch rapid.SampledFrom([]string{"small", "small", "boundary", "week", "back", "nearSlotBoundary", "nearSlotBoundary"}).Draw(t, "clockKind") {
+	case "nearSlotBoundary":
+		// within reach of the first slot, the first slot of the second half, or the last slot of the window
+		now = o + rapid.SampledFrom([]int64{0, 2016, 2016, 4031}).Draw(t, "slotBoundary") + rapid.Int64Range(-432, 432).Draw(t, "reach")
 	case "small":
 		now = int64(s.now) + rapid.Int64Range(1, 300).Draw(t, "delta")
 	case "boundary":
